@@ -7,6 +7,7 @@ CONSTANTS
   MaxOpen = 1
   MaxRetries = 1
   ServerAcks = FALSE
+  MaxReorder = 1
   ReshowAllowed = FALSE
 CONSTRAINT Bounded
 INVARIANT AtMostOnce
